@@ -26,7 +26,13 @@ RULE = ("histories over {resize(shape), write(k-th index, v), copy, assign-from-
         "shapes from the box dim 1..4, extents 1..4 (+ 6, 7, 12, 13 one-dimensional); every state of every history is printed "
         "(flag, shape, strides(), offset-functor strides, size(), len(data_), all elements via operator()). "
         "non-trivial = the history holds a request of dim >= 2 and at least two operations; distinct = distinct case lines")
-THEOREM_STATUS = {"proved": [], "partial": [], "refuted": []}
+THEOREM_STATUS = {"proved": ["C20_init_Inv", "C20_step_preserves_Inv", "C20_history_Inv", "C20_reachable_Inv",
+                             "C20_distinct_indices_distinct_cells", "C20_refused_resize_unchanged", "C20_resize_accepts_iff_fits",
+                             "C20_cast_preserves", "C20_write_through", "C20_view_index_injective", "C20_hybrid_ndarray",
+                             "C20_dynamic_ndarray_on_domain", "C20_strides_accessor_on_domain"],
+                  "partial": [],
+                  "refuted": ["C20_dynamic_default_ctor_refuted", "C20_strides_accessor_colmajor_refuted",
+                              "C20_colmajor_clipped_aliasing_refuted"]}
 ASSUMPTIONS = ["extents are size_t values whose product does not wrap (C01_no_wrap states the guard)",
                "values of cells the property does not fix (fresh cells after construction or after a successful resize) are not compared"]
 
@@ -39,7 +45,11 @@ POOL = [(2, 3), (3, 2), (3, 4), (6,), (12,), (2, 2, 3), (2, 3, 2), (2, 3, 4), (4
 
 def drivers(tier):
     both = ("-DC20_PART_A", "-DC20_PART_B")
-    return {"c20": [("c20.cpp", "ndebug", both), ("c20.cpp", "asan", both)]}
+    return {"c20": [("c20.cpp", "ndebug", both), ("c20.cpp", "asan", both)],
+            "c20v": [("c20_views.cpp", "ndebug", ()), ("c20_views.cpp", "asan", ("-DVD_LIGHT",))],
+            "c20l": [("c20_legacy.cpp", "ndebug", ()), ("c20_legacy.cpp", "asan", ())],
+            # the cast TU instantiates 18 kind tags x 4 raw shapes x 5 element types (55 s): sanitizer build on two shapes only
+            "c20c": [("c20_cast.cpp", "ndebug", ()), ("c20_cast.cpp", "asan", ("-DVD_LIGHT",))]}
 
 
 def prod(s):
@@ -111,7 +121,103 @@ def gen_cases(rng, tier):
             for _ in range(nrand):
                 n = rng.randint(4, 5 if tier == "quick" else 6)
                 add("random", "hist %s S:%s" % (tag, ";".join(rand_op(rng, kind) for _ in range(n))))
+    gen_views(rng, tier, add)
+    gen_legacy(rng, tier, add)
+    gen_casts(rng, tier, add)
     return out
+
+
+LEGACY = {"fixed2x3": ["w4=9", "w1=5", "c", "a"], "fixed6": ["w4=9", "w1=5", "c", "a"],
+          "hybrid12x2": ["r2,3", "r3,4", "r4,4", "r2,7", "w4=9", "c", "a3,2", "g"],
+          "hybrid6x1": ["r4", "r6", "r7", "w4=9", "c", "a3", "g"],
+          "hybrid12x3": ["r2,3,2", "r1,3,4", "r2,3,4", "w4=9", "c", "a3,2,1", "g"],
+          "dynamic": ["r2,3", "r3,4", "r2,3,4", "r6", "w4=9", "c", "a3,2", "g"]}
+TAGS = ["fixed", "hybrid", "dynamic"] + ["ndarray_%s_%s" % (a, b) for a in ("cs", "fs", "hs", "ds", "ls") for b in ("fb", "hb", "db")]
+DTYPES = ["same", "double", "float", "long", "int8"]
+
+
+def gen_legacy(rng, tier, add):
+    maxlen = 3 if tier == "quick" else 4
+    nrand = 150 if tier == "quick" else 1500
+    for cls, al in LEGACY.items():
+        add("legacy", "lhist S:%s S:" % cls, "c20l")
+        for n in range(1, maxlen + 1):
+            for h in itertools.product(al, repeat=n):
+                if cls == "dynamic" and h[0] == "g": continue      # templated operator= on a 0-dim object: nothing to copy
+                add("legacy", "lhist S:%s S:%s" % (cls, ";".join(h)), "c20l")
+        dim = {"hybrid12x2": 2, "hybrid6x1": 1, "hybrid12x3": 3}.get(cls)
+        for _ in range(nrand):
+            ops = []
+            for _ in range(rng.randint(4, 6)):
+                o = rng.choice(al)
+                if o[0] in "ra" and len(o) > 1 and rng.random() < 0.6:
+                    d = dim or rng.randint(1, 3)
+                    o = o[0] + ",".join(str(rng.randint(1, 4)) for _ in range(d))
+                if o[0] == "w": o = "w%d=%d" % (rng.randint(0, 30), rng.randint(-9, 99))
+                ops.append(o)
+            if cls == "dynamic" and ops[0] == "g": ops[0] = "r2,2"
+            add("legacy", "lhist S:%s S:%s" % (cls, ";".join(ops)), "c20l")
+
+
+def gen_casts(rng, tier, add):
+    for raw in ("r6", "r2x3", "r2x3x2", "r3x4"):
+        for tag in TAGS:
+            for dt in DTYPES:
+                add("casts", "castk S:%s S:%s S:%s" % (raw, tag, dt), "c20c")
+    shapes = []
+    for d in (1, 2, 3): shapes += list(itertools.product(range(1, 5), repeat=d))
+    for s in shapes if tier != "quick" else rng.sample(shapes, 40):
+        for tag in ("ndarray_ds_db", "dynamic"):
+            # int8 only where every value 7k-4.25 stays inside the type (out-of-range double->int8 is undefined)
+            add("casts", "castd %s S:%s S:%s" % (L(s), tag, rng.choice(DTYPES if prod(s) <= 18 else DTYPES[:4])), "c20c")
+
+
+def L(v): return "L:" + ",".join(str(x) for x in v)
+
+
+def rand_slice(rng, n):
+    r = rng.random()
+    if r < 0.25: return "0:%d:1" % n
+    if r < 0.5: return "rev"
+    a = rng.randint(0, n - 1); b = rng.randint(a + 1, n); st = rng.randint(1, 3)
+    return "%d:%d:%d" % (a, b, st)
+
+
+def slice_len(t, n):
+    if t == "rev": return n
+    a, b, st = map(int, t.split(":"))
+    return (b - a + st - 1) // st
+
+
+def gen_views(rng, tier, add):
+    """write-through: every index of every view of every small source shape, both layouts"""
+    maxe = 3 if tier == "quick" else 4
+    shapes = []
+    for d in (1, 2, 3): shapes += list(itertools.product(range(1, maxe + 1), repeat=d))
+    shapes += [(6,), (12,), (2, 3, 4), (4, 3, 2)]
+    byprod = {}
+    for s in shapes: byprod.setdefault(prod(s), []).append(s)
+    nres = 2 if tier == "quick" else 6
+    nsl = 2 if tier == "quick" else 6
+    for s in shapes:
+        for lay in "rc":
+            for i in itertools.product(*[range(e) for e in s]):
+                add("views", "wt S:ref S:%s %s N %s" % (lay, L(s), L(i)), "c20v")
+            for k in range(prod(s)):
+                add("views", "wt S:flatten S:%s %s N %s" % (lay, L(s), L((k,))), "c20v")
+            for d in rng.sample(byprod[prod(s)], min(nres, len(byprod[prod(s)]))):
+                kind = rng.choice(["", " S:arr"])
+                for i in itertools.product(*[range(e) for e in d]):
+                    add("views", "wt S:reshape S:%s %s %s %s%s" % (lay, L(s), L(d), L(i), kind), "c20v")
+            for _ in range(nsl):
+                sl = [rand_slice(rng, n) for n in s]
+                vs = [slice_len(t, n) for t, n in zip(sl, s)]
+                for i in itertools.product(*[range(e) for e in vs]):
+                    add("views", "wt S:slice S:%s %s S:%s %s" % (lay, L(s), ";".join(sl), L(i)), "c20v")
+    # requests outside the quantifier (element counts differ): only "no crash / Nothing" is observed
+    for _ in range(20):
+        s = rng.choice(shapes); d = rng.choice(shapes)
+        if prod(s) != prod(d): add("malformed", "wt S:reshape S:r %s %s %s" % (L(s), L(d), L([0] * len(d))), "c20v")
 
 
 def nontrivial(line):
@@ -157,6 +263,16 @@ def equal(a, b):
 
 def classify(line, impl, spec, model):
     t = line.split(" ")
+    if t[0] == "lhist" and t[1] == "S:dynamic" and "|" in impl and "|" in spec:
+        # default-constructed dynamic_ndarray: shape () (product 1) but data.size() == 0; everything else agrees
+        ri, rs = [r.strip().split("|") for r in impl.split(";")], [r.strip().split("|") for r in spec.split(";")]
+        if len(ri) != len(rs) or any(len(r) != 5 for r in ri + rs): return None
+        hit = False
+        for r, q in zip(ri, rs):
+            if equal("|".join(r), "|".join(q)): continue
+            if r[1] == "" and q[1] == "" and r[3] == "0" and q[3] == "1" and r[:3] == q[:3] and r[4] == q[4]: hit = True
+            else: return None
+        return "dynamic-default-ctor" if hit else None
     if t[0] == "hist" and "|" in impl and "|" in spec:
         kind = t[1][2:]
         ri, rs = [r.strip().split("|") for r in impl.split(";")], [r.strip().split("|") for r in spec.split(";")]
